@@ -1,0 +1,37 @@
+//go:build verif
+
+// Contracts for property C12 (id slice): the integer fields of a Cell (id, face, level, orientation) are those
+// of its id, and subdividing a cell yields exactly the cells of the four child ids, in order, with the child
+// orientation the Hilbert tables assign. All uv bounds, containment and distance functions are floating point
+// and are not decided. Comment-only; build tag verif.
+
+package s2
+
+//@ property C12
+
+//@ spec func vcOrientOf(f, i, j, o int) int = o
+//@ spec func vcCellOK(c Cell) bool = vcValid(c.id) && int(c.level) == c.id.Level() && int(c.face) == c.id.Face() && 0 <= c.orientation && c.orientation < 4
+
+//@ func CellFromCellID(id CellID) Cell
+//@   ensures [id] result.id == id
+//@   ensures [fields] vcValid(id) ==> vcCellOK(result)
+//@   ensures [orientation] int(result.orientation) == vcOrientOf(id.faceIJOrientation())
+
+//@ func CellFromPoint(p Point) Cell
+//@   ensures [leaf] vcCellOK(result) && result.id.IsLeaf() && result.id == cellIDFromPoint(p)
+
+//@ func (c Cell) Children() ([4]Cell, bool)
+//@   requires vcCellOK(c)
+//@   ensures [leaf] result1 == !c.id.IsLeaf()
+//@   ensures [ids] result1 ==> forall k int :: 0 <= k && k < 4 ==> result0[k].id == c.id.Children()[k] && vcCellOK(result0[k])
+//@   ensures [orientation] result1 ==> forall k int :: 0 <= k && k < 4 ==> result0[k].orientation == c.orientation^int8(posToOrientation[k])
+//@   loop 1: unroll 4
+
+// the orientation Children assigns is the one the Hilbert tables give the child id
+//@ lemma childOrientation(ci CellID, k int)
+//@   thorough
+//@   timeout 600
+//@   inlinecalls
+//@   unrollcalls 8
+//@   requires vcValid(ci) && !ci.IsLeaf() && 0 <= k && k < 4
+//@   ensures [orientation] vcOrientOf(ci.Children()[k].faceIJOrientation()) == vcOrientOf(ci.faceIJOrientation())^posToOrientation[k]
